@@ -472,7 +472,14 @@ def match(spec, stream, observed, scale, force=None, drop_names=False, variants=
         return False, d, 0, False
     keys = sorted(amb, key=repr)
     best = d
-    if len(keys) <= MAX_AMB:
+    if any(len(amb[k]) > 8 for k in keys):
+        # a value so far from the origin that rounding in the index arithmetic spans many bins: the
+        # specification does not determine its bin to within a search we can afford
+        return False, d, len(keys), True
+    combos = 1
+    for k in keys:
+        combos *= len(amb[k])
+    if len(keys) <= MAX_AMB and combos <= 512:
         for combo in itertools.product(*[range(len(amb[k])) for k in keys]):
             doc = model(dict(zip(keys, combo)))
             dd = diff(doc, observed, scale, drop_names=drop_names, limit=10**6)
